@@ -1566,7 +1566,8 @@ Definition query_close (qi : nat) : MW unit :=
   q <- getQ qi ;;
   if Nat.ltb (q_tab q) 1 then ret tt
   else
-    modQ qi (fun q => q <| q_arch := 0 |> <| q_tab := 0 |> <| q_tables := [] |> <| q_table := None |> <| q_cache := None |>) ;;;
+    modQ qi (fun q => q <| q_arch := 0 |> <| q_tab := 0 |> <| q_index := 0 |> <| q_max := None |>
+                        <| q_tables := [] |> <| q_table := None |> <| q_cache := None |>) ;;;
     unlockM (q_lock q).
 
 Definition query_set_table (qi : nat) (pos : nat) (tid : nat) : MW unit :=
@@ -1643,6 +1644,7 @@ Definition query_next_archetype (qi : nat) : MW bool :=
 
 Definition query_next_table_or_archetype (qi : nat) : MW bool :=
   q <- getQ qi ;;
+  guard (Nat.leb 1 (q_tab q)) EMisuse ;;;      (* closed or finished: rejected before the cursor moves *)
   match q_cache q with
   | Some addr =>
       s <- get ;;
